@@ -8,6 +8,8 @@ import OAP.Model.Handshake
 import Driver.Meta
 import Driver.Frame
 import Driver.Stream
+import Driver.Gz
+import Driver.Misc
 open OAP Driver
 
 def badOp (line : String) : String := s!"bad-op {line}"
@@ -42,22 +44,64 @@ def dispatch (op : String) (a : Args) : Option String :=
   | "hs.unpack" => opHsUnpack a
   | "hs.ctx" => opHsCtx a
   | "proto.get" => opProtoGet a
-  | _ => ((Driver.metaOps ++ Driver.frameOps ++ Driver.streamOps).find? (·.1 == op)).bind (fun f => f.2 a)
+  | _ => ((Driver.metaOps ++ Driver.frameOps ++ Driver.streamOps ++ Driver.gzOps ++ Driver.miscOps ++ Driver.reqOps).find? (·.1 == op)).bind (fun f => f.2 a)
 
-partial def loop (hin : IO.FS.Stream) (hout : IO.FS.Stream) : IO Unit := do
+/-- per-connection streaming state kept across lines (C11 histories): context id ↦ (parked header, ring) -/
+abbrev DState := List (Nat × (Option Header × Ring))
+
+def DState.get (st : DState) (c : Nat) : Option Header × Ring :=
+  match st.find? (·.1 == c) with
+  | some e => e.2
+  | none => (none, Ring.new 16)
+def DState.set (st : DState) (c : Nat) (x : Option Header × Ring) : DState :=
+  (c, x) :: st.filter (·.1 != c)
+
+/-- `sfeed ctx=<i> v= codec= hex=<chunk> [gzt=…]`: write the chunk into the context's ring and call Unpack until
+it no longer reports a packet; after an error the context's ring is replaced by a fresh one -/
+partial def opSfeed (a : Args) (st : DState) : Option (String × DState) := do
+  let c ← a.nat? "ctx"
+  let v ← parseVer a
+  let gz ← oracleTable a
+  let codec ← a.nat? "codec"
+  let chunk ← a.bytes? "hex"
+  let (pend0, rb0) := st.get c
+  let mut pend := pend0
+  let mut rb := rb0.write chunk
+  let mut calls : Array String := #[]
+  let mut again := true
+  let mut failed := false
+  let mut fuel := chunk.length + rb0.length + 4
+  while again && fuel > 0 do
+    fuel := fuel - 1
+    let o := Frame.unpackRing v gz codec.toUInt8 pend rb
+    pend := o.pend
+    rb := o.rb
+    calls := calls.push s!"{showSRes o.res} len={rb.length}"
+    match o.res with
+    | .pkt _ => again := true
+    | .more => again := false
+    | _ => again := false; failed := true
+  let st' := if failed then st.set c (none, Ring.new 16) else st.set c (pend, rb)
+  pure (s!"[w{chunk.length}: {"; ".intercalate calls.toList}]", st')
+
+def dispatchS (op : String) (a : Args) (st : DState) : Option (String × DState) :=
+  if op == "sfeed" then opSfeed a st
+  else if op == "hist.reset" then some ("ok", [])
+  else (dispatch op a).map (·, st)
+
+partial def loop (hin : IO.FS.Stream) (hout : IO.FS.Stream) (st : DState) : IO Unit := do
   let line ← hin.getLine
   if line.isEmpty then return ()
   let (op, args) := parseLine line
   if op == "" || op.startsWith "#" then
-    loop hin hout
+    loop hin hout st
   else
-    match dispatch op args with
-    | some out => hout.putStrLn out
-    | none => hout.putStrLn (badOp line.trimAscii.toString)
-    loop hin hout
+    match dispatchS op args st with
+    | some (out, st') => hout.putStrLn out; loop hin hout st'
+    | none => hout.putStrLn (badOp line.trimAscii.toString); loop hin hout st
 
 def main : IO Unit := do
   let hin ← IO.getStdin
   let hout ← IO.getStdout
-  loop hin hout
+  loop hin hout []
   hout.flush
